@@ -265,14 +265,10 @@ def l3_case(args):
         import src.dataset_processor as DP
         orig = DP.DatasetProcessor.load_read_info
 
-        class OrderedGroups(list):
-            """stands for the set of read groups with one chosen iteration order"""
-            pass
-
         def patched(self, dump_filename):
             a, b, g = orig(self, dump_filename)
             rank = {x: i for i, x in enumerate(order)}
-            return a, b, OrderedGroups(sorted(g, key=lambda x: (rank.get(x, len(rank)), x)))
+            return a, b, sorted(g, key=lambda x: (rank.get(x, len(rank)), x))   # a list: the set in one chosen iteration order
         DP.DatasetProcessor.load_read_info = patched
     rc = run.run_isoquant(argv, paths["home"], os.path.join(d, "o.txt"), pre_hook=hook)
     errs = []
